@@ -34,38 +34,66 @@ func r061(c *Ctx, rule string) {
 	if d == nil {
 		return
 	}
-	lb := ssa.Value(d.newLB)
+	_ = ssa.Value(d.newLB)
 	dispose := c.method("LoadBalancer", "Dispose")
 	n := 0
-	for _, ret := range normalReturns(d.fn) {
-		if !dominates(d.newLB, ret) {
+	// path by path: every way of returning an error after the balancer was made disposes it first (and puts the slot back
+	// when the install failed)
+	ps, complete := enumPathsX(d.fn, func(*ssa.Return) bool { return true }, 4096)
+	if !complete {
+		c.undecided(rule, "deploy/error-returns", d.fn.Pos(), "too many paths through the deploy routine to enumerate")
+	}
+	type verdict struct {
+		which              string
+		disposed, restored bool
+	}
+	byKey := map[string]*verdict{}
+	pos := map[string]*ssa.Return{}
+	var order []string
+	for _, p := range ps {
+		if !p.passes(func(in ssa.Instruction) bool { return in == ssa.Instruction(d.newLB) }) {
 			continue
 		}
-		res := lastRet(ret)
+		res := p.pathValue(lastRet(p.ret))
 		if isNilConst(res) {
 			continue
 		}
-		n++
-		disposed := false
-		for _, cs := range callsTo(d.fn, dispose) {
-			if _, ok := cs.instr.(*ssa.Call); ok && cs.common().Args[0] == lb && dominates(cs.instr, ret) {
-				disposed = true
-			}
-		}
 		which := "wait-failed"
-		if _, nn := nilKnowledge(ret, sameAs(d.instErr)); nn {
+		if _, nn := nilKnowledgeOf(p.conds, sameAs(d.instErr)); nn {
 			which = "install-failed"
 		}
-		c.ob(rule, "deploy/error-return("+which+")-disposes-new-balancer", ret.Pos(), disposed, true,
-			"every failing return after NewLoadBalancer must first Dispose it: otherwise the rejected targets are health-checked forever")
-		if which == "install-failed" {
-			restored := false
+		key := fmt.Sprintf("%s@%d", which, p.ret.Pos())
+		v := byKey[key]
+		if v == nil {
+			v = &verdict{which, true, true}
+			byKey[key] = v
+			pos[key] = p.ret
+			order = append(order, key)
+			n++
+		}
+		if !p.passes(func(in ssa.Instruction) bool {
+			call, ok := in.(*ssa.Call)
+			return ok && isCallTo(call.Common(), dispose) && sameBalancer(call.Call.Args[0], d.newLB)
+		}) {
+			v.disposed = false
+		}
+		if which == "install-failed" && !p.passes(func(in ssa.Instruction) bool {
 			for _, rs := range d.restores {
-				if dominates(rs, ret) && rs.Call.Args[1] == ssa.Value(d.update) {
-					restored = true
+				if in == ssa.Instruction(rs) && rs.Call.Args[1] == ssa.Value(d.update) {
+					return true
 				}
 			}
-			c.ob(rule, "deploy/install-failure-restores-slot", ret.Pos(), restored, true,
+			return false
+		}) {
+			v.restored = false
+		}
+	}
+	for _, key := range order {
+		v := byKey[key]
+		c.ob(rule, "deploy/error-return("+v.which+")-disposes-new-balancer", pos[key].Pos(), v.disposed, true,
+			"every failing return after NewLoadBalancer must first Dispose it: otherwise the rejected targets are health-checked forever")
+		if v.which == "install-failed" {
+			c.ob(rule, "deploy/install-failure-restores-slot", pos[key].Pos(), v.restored, true,
 				"when installService fails after the slot was overwritten, the replaced balancer must be put back (for rollout deploys the service object is the live one)")
 		}
 	}
